@@ -4,6 +4,7 @@ use crate::bytes::B;
 use crate::choose::{gen_alphabet, gen_line, Alphabet, Chooser};
 use crate::diff::*;
 use crate::ptext::*;
+use crate::ws::unesc;
 use serde::{Deserialize, Serialize};
 
 /// Generate file lines (with terminators; the last may lack one).
@@ -110,6 +111,9 @@ pub fn fix_ops(a: &[B], b: &[B], ops: &[Op]) -> Vec<Op> {
 
 pub const DIR_NAMES: &[&str] = &["src", "lib", "doc", "include", "d", "kernel", "a..b"];
 pub const FILE_NAMES: &[&str] = &["f.c", "main.rs", "Makefile", "README", "t.txt", "x.h", "noext", "a.b.c", "conf.in", "z", "v1..v2.txt", "old...c"];
+/// U+F7xx stands for the raw byte 0xxx (see ws::unesc): Latin-1 "café.txt", "dép", a lone continuation byte, 0xFF
+pub const RAW_FILE_NAMES: &[&str] = &["caf\u{f7e9}.txt", "stra\u{f7df}e.h", "x\u{f780}y.c", "\u{f7ff}lead", "uml\u{f7e4}\u{f7fc}.c"];
+pub const RAW_DIR_NAMES: &[&str] = &["d\u{f7e9}p", "\u{f7c0}dir"];
 pub const NASTY_NAMES: &[&str] = &["w s.txt", "tab\there", "uml\u{e4}ut.c", "q\"uote", "back\\slash", "sp ace/f", "gar\u{e7}on.c", "stra\u{df}e.h", "bell\u{7}.txt"];
 
 #[derive(Clone, Copy, Debug, PartialEq, Serialize, Deserialize)]
@@ -218,30 +222,32 @@ pub fn render_name_opt(d: &Dialect, prefix: &str, path: &str, force_quote: bool,
         }
         _ => {}
     }
+    let full = unesc(&full);
     if bare {
-        return full.into_bytes();
+        return full;
     }
-    let must = needs_quote(full.as_bytes());
+    let must = needs_quote(&full);
     match d.quote {
+        // diff writes bytes >= 0x80 as they are; only git quotes them
         Quote::None => {
-            if must {
-                c_quote(full.as_bytes())
+            if full.iter().any(|&c| c < 0x80 && needs_quote(&[c])) {
+                c_quote(&full)
             } else {
-                full.into_bytes()
+                full
             }
         }
         Quote::C => {
             if must || force_quote {
-                c_quote(full.as_bytes())
+                c_quote(&full)
             } else {
-                full.into_bytes()
+                full
             }
         }
         Quote::Octal => {
             if must || force_quote {
-                c_quote_octal(full.as_bytes())
+                c_quote_octal(&full)
             } else {
-                full.into_bytes()
+                full
             }
         }
     }
@@ -349,8 +355,8 @@ pub fn build_file_patch(ch: &mut Chooser, d: &Dialect, chg: &FileChange, ops: &[
             }
             if chg.rename {
                 fp.git_meta.push(B::new("similarity index 90%"));
-                fp.git_meta.push(B(format!("rename from {}", chg.old_path).into_bytes()));
-                fp.git_meta.push(B(format!("rename to {}", chg.new_path).into_bytes()));
+                fp.git_meta.push(B([b"rename from ".to_vec(), unesc(&chg.old_path)].concat()));
+                fp.git_meta.push(B([b"rename to ".to_vec(), unesc(&chg.new_path)].concat()));
             }
             if !hunks.is_empty() {
                 if ch.chance(3, 4) {
@@ -378,7 +384,16 @@ pub fn gen_path(ch: &mut Chooser, nasty: bool) -> String {
         p.push_str(DIR_NAMES[ch.below(DIR_NAMES.len())]);
         p.push('/');
     }
-    if nasty && ch.chance(1, 3) {
+    if nasty && crate::ws::RAW_NAMES.load(std::sync::atomic::Ordering::Relaxed) && ch.chance(1, 4) {
+        // names that are not UTF-8 (Latin-1 trees): in the file name, or in a directory component
+        if ch.chance(1, 2) {
+            p.push_str(RAW_DIR_NAMES[ch.below(RAW_DIR_NAMES.len())]);
+            p.push('/');
+            p.push_str(FILE_NAMES[ch.below(FILE_NAMES.len())]);
+        } else {
+            p.push_str(RAW_FILE_NAMES[ch.below(RAW_FILE_NAMES.len())]);
+        }
+    } else if nasty && ch.chance(1, 3) {
         p.push_str(NASTY_NAMES[ch.below(NASTY_NAMES.len())]);
     } else {
         p.push_str(FILE_NAMES[ch.below(FILE_NAMES.len())]);
